@@ -670,7 +670,13 @@ def oracle(case, obs):
                 la = [kv for kv in va["live"] if kv[0] != 3]
                 lb = [kv for kv in vb["live"] if kv[0] != 3]
                 if va["live"] != vb["live"]:
-                    fails.append({"key": "partners-metadata-differ", "what": f"step {i} ({k}): live metadata of partners ({a},{b}) differ"})
+                    da = {kk: x for kk, x in (va["live"] or [])}
+                    db = {kk: x for kk, x in (vb["live"] or [])}
+                    dk = {kk for kk in set(da) | set(db) if da.get(kk) != db.get(kk)}
+                    copies = [j for j, h in enumerate(hist[: i + 1]) if h["op"] == "copy"]
+                    alias = dk == {2} and bool(copies) and any(h["op"] == "wave" and j > copies[0] for j, h in enumerate(hist[: i + 1]))
+                    fails.append({"key": "tem-copy-shares-waveform-dict" if alias else "partners-metadata-differ",
+                                  "what": f"step {i} ({k}): live metadata of partners ({a},{b}) differ in keys {sorted(dk)}"})
             for v, who in ((va, a), (vb, b)):
                 if v["live"] != v["stored"]:
                     key = "metadata-not-stored"
